@@ -295,6 +295,8 @@ def stream_sql_and_e2e(ck, model_ok, tm=None):
                 continue
             for env, shipped in zip(probe, model[k][3]):
                 tag, num, den = shipped
+                if tag == 4:        # astronomically large: the mirror does not compare it either
+                    continue
                 try:
                     pv = expected(k, env)
                     py = (0, 0, 1) if pv is None else (1, Fraction(pv).numerator, Fraction(pv).denominator)
